@@ -208,6 +208,20 @@ def oracle_clean(f, ctxv):
             ctxv(f'{k} call of user {u} is still blocked after the session closed')
 
 
+def late_cancels(f):
+    """number of receive / login calls that were cancelled LATE: cancel() arrived when the helper task had already completed (first
+    step: suspend on the empty queue, second step: take the message) and the call reported the cancellation — the one-turn window of
+    the recorded finding C04-late-cancel-loses-message.  A cancel that arrives earlier cancels the helper and must lose nothing."""
+    evs = [ev for ev, _ in f.res['log']]
+    n = 0
+    for ic, ev in enumerate(evs):
+        if isinstance(ev, list) and ev[0] == 'cancel' and f.rets().get(ev[1]) == 'cancelled':
+            starts = [k for k, e in enumerate(evs[:ic]) if isinstance(e, list) and e[0] in ('recv', 'login') and e[1] == ev[1]]
+            if starts and sum(1 for e in evs[starts[-1]:ic] if e == ['run', 'V']) >= 2:
+                n += 1
+    return n
+
+
 def oracle_delivery(f, ctxv):
     """C04: what reaches the consumer is a prefix of the decodable messages received; cancelled receive reports the
     cancellation while the session is open; in callback mode everything received is delivered while the session stays open."""
@@ -215,14 +229,28 @@ def oracle_delivery(f, ctxv):
     wire, stopped = f.wire_msgs()
     delivered = f.delivered()
     if delivered != wire[:len(delivered)]:
-        ctxv(f'consumer saw {delivered} but the peer sent {wire}: not a prefix (gap, duplicate, reordering or invention)')
+        # the recorded finding C04-late-cancel-loses-message shows up here as a gap when a later receive goes on with the next
+        # message: it is that finding iff the delivered sequence is the sent one with at most one message missing per receive /
+        # login that was cancelled while pending and reported the cancellation; anything else is a different violation
+        late = late_cancels(f)
+        it, gaps, ok = iter(wire), 0, True
+        for d in delivered:
+            for w in it:
+                if w == d:
+                    break
+                gaps += 1
+            else:
+                ok = False
+                break
+        kind = 'late-cancel-lost-message' if (ok and 0 < gaps <= late) else 'scenario'
+        ctxv((f'consumer saw {delivered} but the peer sent {wire}: not a prefix (gap, duplicate, reordering or invention)', kind))
         return
     drained = res.get('drained') or []
     if (not res['closed'] and not stopped and cfg['mode'] == 'pull' and res.get('drained') is not None
             and not any(ev == ['recv', it[1]] and it[1] not in f.rets() for it in f.script if it[0] == 'recv' for ev, _ in res['log'])):
         if delivered + drained != wire:
-            late = [it[1] for it in f.script if it[0] == 'cancel' and f.rets().get(it[1]) == 'cancelled']
-            kind = 'late-cancel-lost-message' if late and len(delivered) + len(drained) < len(wire) else 'scenario'
+            missing = len(wire) - len(delivered) - len(drained)
+            kind = 'late-cancel-lost-message' if 0 < missing <= late_cancels(f) else 'scenario'
             ctxv((f'session open, all data polled, but consumer saw {delivered} and {drained} remained queued; the peer sent {wire}', kind))
             return
     cancelled_users = [it[1] for it in f.script if it[0] == 'cancel']
